@@ -312,7 +312,14 @@ impl GlobalCollector {
             // by now, so drain all channels once more. Commits that only show up in this second
             // pass wait for the next cycle, because what precedes *them* may not be drained yet.
             let first_pass_commits = commit_collects.len();
+            #[cfg(fastrace_verif)]
+            let mut verif_rx_index = 0usize;
             for rx in rxs.iter_mut() {
+                #[cfg(fastrace_verif)]
+                {
+                    crate::verif::hook(crate::verif::Point::SecondPass(verif_rx_index));
+                    verif_rx_index += 1;
+                }
                 while let Ok(Some(cmd)) = rx.try_recv() {
                     match cmd {
                         CollectCommand::StartCollect(cmd) => start_collects.push(cmd),
